@@ -20,6 +20,8 @@ MANIFEST = {
     'technique': 'solver-driven bounded exploration of the real Python code on real numpy with a nondeterministic RNG stub (every draw a solver decision; coverage certificate by decision-tree audit)',
 }
 
+WIDE_SPAN = 70000      # random_values over bounds wider than 2^16 candidates
+
 STRUCTS = [
     None,
     [(1, [100, 101])],
@@ -29,6 +31,9 @@ STRUCTS = [
     [(0, [100, 101]), (2, 2)],
     [([1, 2], 2)],
     [(2, [[300, 301, 302], [0.2, 0.0, 0.8]])],
+    [(1, [7])],                      # a value list of length one: the feature is the constant 7
+    [(2, np.array([250]))],          # the same as a numpy array
+    [(0, [[5], [1.0]])],             # one value with its frequency
 ]
 BOUNDS = {'quick': {'feature': (3, 3), 'data': (3, 2), 'seed': (2, 2), 'naive': 2}, 'thorough': {'feature': (4, 3), 'data': (3, 3), 'seed': (3, 2), 'naive': 3}}
 INFO = {
@@ -37,7 +42,7 @@ INFO = {
     'bounds': {t: {'feature': f'size<={b["feature"][0]}, cardinality<={b["feature"][1]}, modes default/explicit values/values+frequencies/random_values, ensure_rep',
                    'data': f'{b["data"][0]} features x <= {b["data"][1]} samples, {len(STRUCTS)} structure templates', 'seed': 'two runs with the same seed around an unrelated draw',
                    'naive': f'{b["naive"]} rows x 31 columns, needle cells over {{10,39,40,99}}', 'task': 'data_generator task: 31..34 features x 1..4 rows (real RNG, seed 123)'} for t, b in BOUNDS.items()},
-    'outside': ['shape of the sampling distribution', 'unsorted structure indices', 'larger sizes', 'data/seed conditions: the draw selecting the mode of the distribution is fixed and shuffles are identity/reversal only (both irrelevant to domains and placement; all outcomes are explored in the feature condition)'],
+    'outside': ['draws from ranges wider than 64 candidates are explored through representatives (first, second, last) only', 'shape of the sampling distribution', 'unsorted structure indices', 'larger sizes', 'data/seed conditions: the draw selecting the mode of the distribution is fixed and shuffles are identity/reversal only (both irrelevant to domains and placement; all outcomes are explored in the feature condition)'],
     'assumptions': ['numpy.random replaced by the RNG stub: choice returns elements of positive probability, shuffle any permutation, randint any value in range'],
     'job_timeout': {'quick': 300, 'thorough': 2400},
     'max_replays': 8, 'max_replays_per_cond': 3,
@@ -51,17 +56,17 @@ def expected_domains(nf, card, low, struct):
             for ix in (ixs if isinstance(ixs, list) else [ixs]):
                 if isinstance(attr, int):
                     dom[ix] = set(range(low, low + attr))
-                elif isinstance(attr[0], list):
+                elif isinstance(attr, list) and isinstance(attr[0], list):
                     dom[ix] = set(attr[0])     # the declared value list (a value with frequency 0 is still part of the declaration)
                 else:
-                    dom[ix] = set(attr)
+                    dom[ix] = set(int(v) for v in attr)
     return dom
 
 
 def jobs(tier):
     b = BOUNDS[tier]
     out = []
-    for mode in ('default', 'values', 'freq', 'random'):
+    for mode in ('default', 'values', 'freq', 'random', 'random-wide'):
         for rep in (False, True):
             for sz in range(1, b['feature'][0] + 1):
                 for cd in range(1, b['feature'][1] + 1):
@@ -72,6 +77,8 @@ def jobs(tier):
             out.append({'cond': 'data', 'struct': si, 'rep': rep, 'pins': {}, 'weight': 500, 'label': f'structure {si},ensure_rep={rep}'})
     for si in (0, 1, 4):
         out.append({'cond': 'seed', 'struct': si, 'pins': {}, 'weight': 300, 'label': f'structure {si}'})
+        if si in (0, 2):
+            out.append({'cond': 'seed', 'struct': si, 'wide': True, 'pins': {'card': 1}, 'weight': 300, 'label': f'structure {si}, random values from a range of {WIDE_SPAN + 1}'})
     out.append({'cond': 'naive', 'pins': {}, 'weight': 100, 'label': 'naive'})
     out.append({'cond': 'task', 'pins': {}, 'weight': 50, 'label': 'generator task'})
     return out
@@ -199,16 +206,19 @@ def run_job(job):
                     p = [1.0 / card] * card
                     x = cc._generate_feature(size, vec=vec, ensure_rep=rep, p=p)
                     dom = set(vec)
+                elif mode == 'random-wide':
+                    x = cc._generate_feature(size, cardinality=card, ensure_rep=rep, random_values=True, low=low, high=low + WIDE_SPAN)
+                    dom = range(low, low + WIDE_SPAN + 1)
                 else:
                     x = cc._generate_feature(size, cardinality=card, ensure_rep=rep, random_values=True, low=low, high=low + card)
                     dom = set(range(low, low + card + 1))
                 w['draws'] = [v for _, v in G.RNGI.log]
                 if len(x) != size or str(x.dtype) != 'int32':
                     probs.append(f'feature has length {len(x)} / dtype {x.dtype}, requested {size} / int32')
-                if not set(int(v) for v in x) <= dom:
-                    probs.append(f'values {sorted(set(int(v) for v in x))} outside the declared domain {sorted(dom)}')
+                if not all(int(v) in dom for v in x):
+                    probs.append(f'values {sorted(set(int(v) for v in x))} outside the declared domain {sorted(dom) if len(dom) < 50 else dom}')
                 used = set(int(v) for v in x)
-                if mode == 'random':
+                if mode in ('random', 'random-wide'):
                     n_dom = card
                     if rep and n_dom <= size and len(used) < n_dom:
                         probs.append(f'ensure_rep: only {len(used)} of the {n_dom} drawn values occur in {size} samples')
@@ -233,9 +243,11 @@ def run_job(job):
                             elif rep and len(dom[j]) <= size and col != dom[j]:
                                 probs.append(f'ensure_rep: column {j} misses {sorted(dom[j] - col)} although {size} samples >= {len(dom[j])} values')
                 else:
-                    X1 = cc.generate_data(nf, size, cardinality=card, structure=struct, low=low, seed=11)
+                    kw = dict(random_values=True, high=low + WIDE_SPAN) if job.get('wide') else {}
+                    w['wide'] = bool(job.get('wide'))
+                    X1 = cc.generate_data(nf, size, cardinality=card, structure=struct, low=low, seed=11, **kw)
                     G.RNGI.randint(5)          # an unrelated draw in between
-                    X2 = cc.generate_data(nf, size, cardinality=card, structure=struct, low=low, seed=11)
+                    X2 = cc.generate_data(nf, size, cardinality=card, structure=struct, low=low, seed=11, **kw)
                     w['draws'] = [v for _, v in G.RNGI.log]
                     if X1.shape != X2.shape or (X1 != X2).any():
                         probs.append(f'same seed and arguments gave {X1.tolist()} and then {X2.tolist()}')
@@ -284,6 +296,11 @@ def replay(w):
                 vec = [100 + 3 * i for i in range(card)]
                 x = cc._generate_feature(size, vec=vec, ensure_rep=rep, p=([1.0 / card] * card if mode == 'freq' else None))
                 dom = set(vec)
+            elif mode == 'random-wide':
+                x = cc._generate_feature(size, cardinality=card, ensure_rep=rep, random_values=True, low=low, high=low + WIDE_SPAN)
+                dom = None
+                if any(not (low <= int(v) <= low + WIDE_SPAN) for v in x):
+                    return {'reproduced': True, 'signature': 'C19:feature-domain', 'what': f'seed {seed}: _generate_feature({w}) -> {x.tolist()} outside [{low}, {low + WIDE_SPAN}]'}
             else:
                 x = cc._generate_feature(size, cardinality=card, ensure_rep=rep, random_values=True, low=low, high=low + card)
                 dom = None
@@ -310,9 +327,10 @@ def replay(w):
                         sig = 'C19:ensure-rep-at-equality' if len(dom[j]) == size else 'C19:ensure-rep'
                         return {'reproduced': True, 'signature': sig, 'what': f'seed {seed}, structure {struct}: ensure_rep, column {j} = {sorted(col)} misses {sorted(dom[j] - col)} ({size} samples, {len(dom[j])} values)'}
             else:
-                X1 = cc.generate_data(nf, size, cardinality=card, structure=struct, low=low, seed=seed)
+                kw = dict(random_values=True, high=low + WIDE_SPAN) if w.get('wide') else {}
+                X1 = cc.generate_data(nf, size, cardinality=card, structure=struct, low=low, seed=seed, **kw)
                 np.random.randint(5)
-                X2 = cc.generate_data(nf, size, cardinality=card, structure=struct, low=low, seed=seed)
+                X2 = cc.generate_data(nf, size, cardinality=card, structure=struct, low=low, seed=seed, **kw)
                 if (X1 != X2).any():
-                    return {'reproduced': True, 'signature': 'C19:seed', 'what': f'seed {seed}: two calls with the same seed and arguments differ'}
+                    return {'reproduced': True, 'signature': 'C19:seed', 'what': f'seed {seed}: two calls of generate_data({nf}, {size}, cardinality={card}, structure={struct}, low={low}{", random_values=True, high=" + str(low + WIDE_SPAN) if kw else ""}, seed={seed}) give {X1.tolist()} and {X2.tolist()}'}
     return {'reproduced': False, 'what': 'not reproduced with seeds 0..299'}
